@@ -175,8 +175,14 @@ CLAIMS: dict[str, tuple[str, str, str, str]] = {
         "rule chain whose rules satisfy the contracts K1-K4 and that contains an always-matching fallback, for every "
         "line table, range and maxNesting; incl. that Python's non-reset `ok` flag is harmless because rules "
         "preserve the level; T1 obligation fallback_rules (paragraph last, text first, both in every preset). "
-        "MISSING: the contracts are hypotheses — proved only for the rules modelled in Lean, monitored on every "
-        "call of every real rule otherwise (harness/monitor.py, ~47k rule calls per quick run); renderer/CLI totality "
+        "The contracts are stated relative to the loop's call context (CallCtx) and are PROVED for the modelled block "
+        "rules code, fence, hr, heading, paragraph (Props/C01b.lean ruleOK_*, paragraph_always), giving the "
+        "unconditional mini_total: for every source, every subset of those optional rules and every maxNesting the "
+        "modelled parse (normalize, StateBlock line scan, block loop, rules) returns normally; that model is tied to "
+        "the real parser by whole-document differential runs under the 16 rule subsets (`miniblock`, 2.5k/60k documents). "
+        "MISSING: for the other rules (containers, table, reference, html_block, lheading, most inline rules) the "
+        "contracts stay hypotheses, monitored on every "
+        "call of every real rule (harness/monitor.py, ~47k rule calls per quick run); renderer/CLI totality "
         "and the CPython stack limit by oracle (time-limited sweeps: random x configurations, bounded-exhaustive "
         "line documents, deep nesting, CLI bytes). Tie: contract monitor + replay of every real ParserBlock.tokenize "
         "call on the Lean loop with recorded rule outcomes.",
@@ -189,7 +195,9 @@ CLAIMS: dict[str, tuple[str, str, str, str]] = {
         "line table and range, the tokens a block loop adds come in stages with non-empty, in-range, strictly "
         "increasing and pairwise disjoint line ranges inside the loop's own range (maps in range, non-empty, "
         "ordered between siblings); container_map — the end-line patch of a container encloses the nested loop's "
-        "stages (maps nest). MISSING: the per-rule map contract is a hypothesis (monitored on every real rule call); "
+        "stages (maps nest). The map contract is PROVED for code, fence, hr, heading, paragraph (Props/C03b.lean "
+        "mapOK_*), giving the unconditional mini_staged for that sub-parser (model tied by the `miniblock` "
+        "differential runs). MISSING: for the other rules the map contract is a hypothesis (monitored on every real rule call); "
         "'starts/ends on a non-blank line', inline content lines and coverage of every non-blank line are decided "
         "by the oracle (the property's predicate on streams and env; bounded-exhaustive line documents). Known "
         "finding K-C03-1 (str.strip() drops lines made of Unicode blanks from inline content).",
